@@ -6,6 +6,7 @@ import (
 	"math/rand"
 	"os"
 	"sort"
+	"strings"
 	"time"
 
 	sdkmath "cosmossdk.io/math"
@@ -49,6 +50,17 @@ type farmEnv struct {
 	taxDen  int64
 	last    chain.M       // last projected state
 	opts    chain.Options // how the application was built (reimport builds another one)
+	// magnitude tier (DESIGN 4.2, exact scaling): every reward-denom amount on the
+	// chain is rk times the model's, every LP amount lpk*10^18/prec times; rk is a
+	// multiple of lpk, and the accumulator mantissa is rk/lpk times the model's.
+	// Exact as long as every released amount is divisible by the pool's total
+	// stake (the magnitude drivers keep reward rates multiples of lcm(1..max stake)).
+	rk     *big.Int
+	lpk    *big.Int
+	rpsDiv *big.Int
+	isR    map[string]bool
+	mag    bool
+	grain  int64 // model reward rates are multiples of this in magnitude histories
 	// governance-funded pools (gov.go)
 	wired     bool
 	proposers []string
@@ -95,18 +107,38 @@ func newFarmEnv(fl *drv.Flags, wired bool) *farmEnv {
 	}
 	e.initCP = fl.CfgInt("initcp", map[bool]int64{false: 0, true: 20}[wired])
 	e.unit = new(big.Int).Quo(new(big.Int).Exp(big.NewInt(10), big.NewInt(18), nil), big.NewInt(e.prec))
-	accts := map[string]string{"lpsrc": "2000000000000000000000stake,2000000000000000000000btc"}
+	e.rk, e.lpk = bigCfg(fl, "rk"), bigCfg(fl, "lpk")
+	var rem big.Int
+	e.rpsDiv, _ = new(big.Int).QuoRem(e.rk, e.lpk, &rem)
+	if rem.Sign() != 0 {
+		panic("cfg: rk must be a multiple of lpk")
+	}
+	e.unit.Mul(e.unit, e.lpk)
+	e.mag = fl.CfgInt("mag", 0) == 1 || e.rk.Cmp(big.NewInt(1)) != 0 || e.lpk.Cmp(big.NewInt(1)) != 0
+	e.grain = lcmUpTo(int64(len(e.users)) * e.initLP)
+	e.isR = map[string]bool{}
+	for _, d := range e.rdenoms {
+		e.isR[d] = true
+	}
+	scaledR := func(n int64) string { return new(big.Int).Mul(big.NewInt(n), e.rk).String() }
+	// the LP source adds enough liquidity for every user's LP tokens (1e21 at least)
+	lpNeed, _ := new(big.Int).SetString("1000000000000000000000", 10)
+	if n := new(big.Int).Mul(e.unit, big.NewInt(4*int64(len(e.users))*e.initLP)); n.Cmp(lpNeed) > 0 {
+		lpNeed = n
+	}
+	lpFund := new(big.Int).Mul(lpNeed, big.NewInt(2)).String()
+	accts := map[string]string{"lpsrc": lpFund + "stake," + lpFund + "btc"}
 	if e.initCP > 0 {
 		s := ""
 		for _, d := range e.rdenoms {
-			s += fmt.Sprintf(",%d%s", e.initCP, d)
+			s += fmt.Sprintf(",%s%s", scaledR(e.initCP), d)
 		}
 		accts["cpsrc"] = s[1:]
 	}
 	for _, u := range append(append([]string{}, e.users...), e.proposers...) {
 		s := fmt.Sprintf("%d%s", e.initR, e.feeDen)
 		for _, d := range e.rdenoms {
-			s += fmt.Sprintf(",%d%s", e.initR, d)
+			s += fmt.Sprintf(",%s%s", scaledR(e.initR), d)
 		}
 		accts[u] = s
 	}
@@ -149,7 +181,7 @@ func newFarmEnv(fl *drv.Flags, wired bool) *farmEnv {
 	// pools created by a passed proposal belong to the distribution module account
 	e.names[chain.ModuleAddr(distrtypes.ModuleName).String()] = "feepool"
 	// block 2: create the coinswap pool lpt-1 and hand LP tokens to the users
-	big21, _ := sdkmath.NewIntFromString("1000000000000000000000")
+	big21 := sdkmath.NewIntFromBigInt(lpNeed)
 	src := c.Accts["lpsrc"]
 	txs := []chain.Tx{{Signer: "lpsrc", Msgs: []sdk.Msg{&coinswaptypes.MsgAddLiquidity{
 		MaxToken: sdk.NewCoin("btc", big21), ExactStandardAmt: big21, MinLiquidity: sdkmath.OneInt(),
@@ -228,6 +260,9 @@ func (e *farmEnv) project(ctx sdk.Context) any {
 		}
 		return v
 	}
+	// reward-denom amounts in model units (divided by rk), the accumulator by rk/lpk
+	rw := func(i sdkmath.Int) int64 { return e.div(i, e.rk, &inexact) }
+	rpsOf := func(i sdkmath.Int) int64 { return e.div(i, e.rpsDiv, &inexact) }
 	pools := chain.M{}
 	fi := chain.M{}
 	var poolList []farmtypes.FarmPool
@@ -237,8 +272,8 @@ func (e *farmEnv) project(ctx sdk.Context) any {
 		rs := k.GetRewardRules(ctx, p.Id)
 		for _, r := range rs {
 			rules[r.Reward] = chain.M{
-				"totalR": sm(r.TotalReward), "remaining": sm(r.RemainingReward),
-				"rpb": sm(r.RewardPerBlock), "rps": sm(sdkmath.NewIntFromBigInt(r.RewardPerShare.BigInt())),
+				"totalR": rw(r.TotalReward), "remaining": rw(r.RemainingReward),
+				"rpb": rw(r.RewardPerBlock), "rps": rpsOf(sdkmath.NewIntFromBigInt(r.RewardPerShare.BigInt())),
 			}
 		}
 		pools[p.Id] = chain.M{
@@ -254,7 +289,7 @@ func (e *farmEnv) project(ctx sdk.Context) any {
 			}
 			debt := chain.M{}
 			for _, r := range rs {
-				debt[r.Reward] = sm(info.RewardDebt.AmountOf(r.Reward))
+				debt[r.Reward] = rw(info.RewardDebt.AmountOf(r.Reward))
 			}
 			infos[u] = chain.M{"locked": sc(info.Locked), "debt": debt}
 		}
@@ -277,9 +312,12 @@ func (e *farmEnv) project(ctx sdk.Context) any {
 	for _, a := range e.accounts() {
 		row := chain.M{}
 		for _, d := range e.denoms() {
-			if d == e.lp {
+			switch {
+			case d == e.lp:
 				row[d] = sc(e.balOf(ctx, a, d))
-			} else {
+			case e.isR[d]:
+				row[d] = rw(e.balOf(ctx, a, d))
+			default:
 				row[d] = sm(e.balOf(ctx, a, d))
 			}
 		}
@@ -288,9 +326,12 @@ func (e *farmEnv) project(ctx sdk.Context) any {
 	supply := chain.M{}
 	for _, d := range e.denoms() {
 		v := c.Supply(ctx, d).Sub(e.off[d])
-		if d == e.lp {
+		switch {
+		case d == e.lp:
 			supply[d] = sc(v)
-		} else {
+		case e.isR[d]:
+			supply[d] = rw(v)
+		default:
 			supply[d] = sm(v)
 		}
 	}
@@ -339,7 +380,11 @@ func (e *farmEnv) withDonated(st any) any {
 func (e *farmEnv) coins(m map[string]int64) sdk.Coins {
 	var cs sdk.Coins
 	for _, d := range chain.SortedKeys(m) {
-		cs = append(cs, sdk.Coin{Denom: d, Amount: sdkmath.NewInt(m[d])})
+		amt := sdkmath.NewInt(m[d])
+		if e.isR[d] {
+			amt = sdkmath.NewIntFromBigInt(new(big.Int).Mul(big.NewInt(m[d]), e.rk))
+		}
+		cs = append(cs, sdk.Coin{Denom: d, Amount: amt})
 	}
 	return cs
 }
@@ -379,6 +424,8 @@ func (e *farmEnv) msgOf(ev chain.M) sdk.Msg {
 		coin := sdk.NewInt64Coin(d, chain.Num(ev, "amt"))
 		if d == e.lp {
 			coin = e.lpCoin(chain.Num(ev, "amt"))
+		} else if e.isR[d] {
+			coin = e.coins(map[string]int64{d: chain.Num(ev, "amt")})[0]
 		}
 		return banktypes.NewMsgSend(c.Accts[who].Addr, chain.ModuleAddr(farmtypes.ModuleName), sdk.NewCoins(coin))
 	}
@@ -443,11 +490,87 @@ func (e *farmEnv) rewardOf(r chain.TxResult, name string) chain.M {
 			cs = resp.Reward
 		}
 	}
+	bad := 0
 	for _, c := range cs {
-		v, _ := chain.Small(c.Amount)
-		out[c.Denom] = v
+		out[c.Denom] = e.denomAmt(c.Denom, c.Amount, &bad)
 	}
 	return out
+}
+
+// div: i / unit as a model integer; counts what is not exactly divisible or out
+// of the model's range (the scale guard C05_ScaleExact reads the count).
+func (e *farmEnv) div(i sdkmath.Int, unit *big.Int, bad *int) int64 {
+	q, r := new(big.Int).QuoRem(i.BigInt(), unit, new(big.Int))
+	if r.Sign() != 0 {
+		*bad++
+	}
+	lim := big.NewInt(1<<31 - 1)
+	if q.CmpAbs(lim) > 0 {
+		*bad++
+		if q.Sign() < 0 {
+			return -(1<<31 - 1)
+		}
+		return 1<<31 - 1
+	}
+	return q.Int64()
+}
+
+// denomAmt: an amount of a denom in model units.
+func (e *farmEnv) denomAmt(d string, a sdkmath.Int, bad *int) int64 {
+	switch {
+	case d == e.lp:
+		return e.div(a, e.unit, bad)
+	case e.isR[d]:
+		return e.div(a, e.rk, bad)
+	}
+	return e.div(a, big.NewInt(1), bad)
+}
+
+func bigCfg(fl *drv.Flags, k string) *big.Int {
+	v, ok := new(big.Int).SetString(fl.CfgStr(k, "1"), 10)
+	if !ok || v.Sign() <= 0 {
+		panic("cfg: bad " + k)
+	}
+	return v
+}
+
+// magStrata: factors (reward rk, LP lpk; lpk divides rk) chosen so that with
+// model rates of 60..180 per block, budgets of some thousands and balances of
+// 20000 the real per-block rewards, budgets, balances, LP stakes (k*10^17*lpk)
+// and the products rate x span fall into every stratum of the magnitude brief;
+// all factors have non-zero low bits.
+var magStrata = []struct{ name, rk, lpk string }{
+	{"rpb in [2^31,2^32)", "46530001", "1"},
+	{"rpb in [2^32,2^53), budgets cross 2^53", "75059993789509", "1"},
+	{"rpb in [2^53,2^63), budgets in [2^63,2^64), top-ups and balances cross 2^64", "7205759403792797", "1"},
+	{"rpb ~ 10^18 < 2^64, rpb x span >= 2^64 for spans >= 7..19", "16666666666666667", "1"},
+	{"rpb in [2^63,2^64) (and 2^64.. for higher rates), rpb x 2 >= 2^64", "169093200598693763", "1"},
+	{"rpb in [2^64,2^65), LP stakes in [2^64,2^65)", "399680655960798127", "257"},
+	{"rpb ~ 2^96, LP stakes ~ 2^96", "1320469375238333597427208381", "792281625143"},
+	{"rpb in [2^127,2^129), LP stakes ~ 2^128, balances beyond 2^128", "5671372782015648997643561488564147477", "3402823669209384634633"},
+	{"rpb in [2^32,2^53) with LP stakes in [2^63,2^64)", "1099511640059", "97"},
+}
+
+func cfgString(m map[string]string) string {
+	var kv []string
+	for _, k := range chain.SortedKeys(m) {
+		if k != "strata" {
+			kv = append(kv, k+"="+m[k])
+		}
+	}
+	return strings.Join(kv, ",")
+}
+
+func lcmUpTo(n int64) int64 {
+	l := int64(1)
+	for i := int64(2); i <= n; i++ {
+		a, b := l, i
+		for b != 0 {
+			a, b = b, a%b
+		}
+		l = l / a * i
+	}
+	return l
 }
 
 // runBlock executes the pending message events as one block and writes one
@@ -590,6 +713,13 @@ func farmDriver(mode string, fl *drv.Flags) error {
 	case "random":
 		rng := rand.New(rand.NewSource(fl.Seed))
 		for i := 0; i < fl.N; i++ {
+			if fl.CfgInt("strata", 0) == 1 {
+				// magnitude tier: every history runs at the next stratum's factors; the
+				// Init line carries them, so a replay cut from the trace uses the same
+				st := magStrata[(int(fl.Seed%1000)+i)%len(magStrata)]
+				fl.Cfg["rk"], fl.Cfg["lpk"] = st.rk, st.lpk
+				chain.DriverCfg = cfgString(fl.Cfg)
+			}
 			farmRandom(fl, rng, w)
 		}
 	default:
@@ -627,6 +757,17 @@ func farmRandom(fl *drv.Flags, rng *rand.Rand, w *chain.TraceWriter) {
 			}
 			return ids[rng.Intn(len(ids))]
 		}
+		if e.mag {
+			// magnitude histories are short: keep them busy - more messages per block,
+			// and every running pool gets a farmer as soon as it has started
+			n = 2 + rng.Intn(3)
+			for _, p := range running {
+				pl := pools[p].(chain.M)
+				if pl["total"].(int64) == 0 && pl["start"].(int64) <= h && rng.Intn(3) > 0 {
+					pending = append(pending, farmEvent("Stake", e.users[rng.Intn(len(e.users))], p, int64(1+rng.Intn(2))))
+				}
+			}
+		}
 		for j := 0; j < n; j++ {
 			u := e.users[rng.Intn(len(e.users))]
 			if e.wired && rng.Intn(20) < 7 {
@@ -649,12 +790,22 @@ func farmRandom(fl *drv.Flags, rng *rand.Rand, w *chain.TraceWriter) {
 				sort.Ints(perm)
 				for _, di := range perm {
 					r := int64(1 + rng.Intn(4))
+					spans := int64(1 + rng.Intn(5))
+					if e.mag {
+						// rates in multiples of lcm(1..max stake): every released amount divides
+						// by the staked total (exact scaling); budgets for long quiet spans
+						r = e.grain * int64(1+rng.Intn(3))
+						spans = int64(5 + rng.Intn(35))
+					}
 					rpb[e.rdenoms[di]] = r
-					tot[e.rdenoms[di]] = r*int64(1+rng.Intn(5)) + int64(rng.Intn(int(r)))
+					tot[e.rdenoms[di]] = r*spans + int64(rng.Intn(int(r)))
 				}
 				ev["total"], ev["rpb"] = tot, rpb
 				ev["lpt"] = e.lp
 				ev["start"] = h + int64(rng.Intn(3))
+				if e.mag {
+					ev["start"] = h + int64(rng.Intn(2))
+				}
 				ev["editable"] = rng.Intn(4) != 0
 				pending = append(pending, ev)
 			case len(ids) == 0:
@@ -684,9 +835,15 @@ func farmRandom(fl *drv.Flags, rng *rand.Rand, w *chain.TraceWriter) {
 				for _, d := range chain.SortedKeys(rules) {
 					if rng.Intn(2) == 0 {
 						tot[d] = int64(1 + rng.Intn(6))
+						if e.mag {
+							tot[d] = int64(1 + rng.Intn(300))
+						}
 					}
 					if rng.Intn(2) == 0 {
 						rpb[d] = int64(1 + rng.Intn(4))
+						if e.mag {
+							rpb[d] = e.grain * int64(1+rng.Intn(3))
+						}
 					}
 				}
 				ev["total"], ev["rpb"] = tot, rpb
@@ -706,6 +863,15 @@ func farmRandom(fl *drv.Flags, rng *rand.Rand, w *chain.TraceWriter) {
 		if reimports && rng.Intn(12) == 0 {
 			if !e.reimport(w) {
 				return
+			}
+		}
+		if e.mag && rng.Intn(4) == 0 {
+			// a quiet stretch: nobody touches any pool for 19..30 blocks, so the next
+			// update multiplies the per-block reward by a long span
+			for q := 19 + rng.Intn(12); q > 0; q-- {
+				if !e.runBlock(nil, w) {
+					return
+				}
 			}
 		}
 	}
